@@ -1,5 +1,7 @@
 import GrinVerif.Lemmas.CodecFaith
 import GrinVerif.Lemmas.CodecSafe
+import GrinVerif.Lemmas.CodecTimed
+import GrinVerif.Lemmas.CodecNonce
 /-! # C19 — peer message framing is faithful under fragmentation and enforces size limits
 
 Model: `Model/Codec.lean` (the `Codec` state machine of `p2p/src/codec.rs` over a socket that is a
@@ -27,13 +29,29 @@ stated round-trip hypotheses (`SentWF`), in particular for the native bodies of 
   non-empty lists); `headers_never_read_beyond` — while streaming a `Headers` body the codec never
   pulls bytes beyond the announced `msg_len`, whatever the count says;
 * `negotiate_min`, `accept_*`, `initiate_*`, `own_nonce_detected` — handshake decisions;
+* `ring_holds_last`, `recent_nonce_retained`, `self_connect_refused`, `evicted_nonce_not_detected` —
+  the nonce ring of one long-lived `Handshake` over any history of outbound attempts: it holds exactly
+  the last `min(n, NONCES_CAP − 1)` nonces (the code pops when `len >= NONCES_CAP`, so 99, not 100),
+  hence a connection to itself made now is refused whatever happened before;
+* `body_states_use_body_timeout`, `timeout_table` — the read timeout per codec state (table
+  regenerated from `set_stream_timeout` into `Gen/CodecTimeouts.lean`): `HEADER_IO_TIMEOUT` only
+  while idle in `None`, `BODY_IO_TIMEOUT` in every state reachable after an accepted message header,
+  streaming states included;
+* `fragmentation_with_delays_faithful` — `framing_faithful` over the **timed** machine (`runT`: every
+  byte carries the time it lets the reader wait; a wait ≥ the timeout of the current state makes the
+  fill fail with `TimedOut` and lose what it had pulled): for every fragment schedule whose pauses
+  respect the per-state timeout (`DelaysOK`: < 2 s while a frame header is awaited, < 60 s anywhere
+  after it) the expected sequence is delivered; `fragmentation_small_delays_faithful` (all pauses
+  < 2 s), `fragmentation_with_idle_gaps_faithful` (in addition pauses of ANY length between messages:
+  the reads that time out while idle lose nothing and are retried), `idle_pause_absorbed`;
 * `codec_read_no_panic`, `codec_read_no_hang`, `codec_read_alloc_bound` — the C11 obligations of the
   state machine itself.
 
-Not proved (runtime, **partial on that clause**): the I/O timeouts (`HEADER_IO_TIMEOUT` 2 s,
-`BODY_IO_TIMEOUT` 60 s, handshake 10 s / 2 s).  The model has no clock: a fragment list that ends is
-an end of stream.  In the code a timeout in the *middle* of a frame discards the bytes already pulled
-(`buffer.truncate(pre_len)`) and the next `read` starts mid-frame — outside "within the I/O timeouts". -/
+Timing, what is **not** proved: that the operating system's `SO_RCVTIMEO` behaves as `rxT` says (one
+timer per `read` call, restarted by every byte that arrives), the handshake timeouts (10 s / 2 s,
+plain `read_exact` on the socket), and liveness.  A timeout in the *middle* of a frame header, or a
+pause ≥ 60 s inside a body, discards the bytes already pulled (`buffer.truncate(pre_len)`) and the
+next `read` starts mid-frame — that is outside "within the I/O timeouts" (`header_pause_desyncs`). -/
 namespace GV.Props.C19
 open GV GV.Ser GV.Dec GV.Msg GV.Codec GV.Gen.Msg
 
@@ -101,6 +119,193 @@ example : ∀ m ∈ [Sent.plain 3 [1, 2] [1, 2], Sent.unknown 200 [9], Sent.head
     simp only [List.mem_cons, List.mem_nil_iff, or_false] at hit
     rcases hit with rfl | rfl <;> exact ⟨by decide, by decide, fun x => rfl⟩
   · exact ⟨by decide, by decide, by decide, rfl, rfl⟩
+
+/-! ## timing: the read timeout per state, pauses between fragments -/
+
+/-- the codec states reachable after a message header was accepted and before the message (with its
+streamed items / attachment) is finished: the loop continued out of `None`, continued further,
+returned a batch or chunk with more to come, or the handler announced an attachment; the buffer is
+whatever the fills made it -/
+inductive InMessage (env : Env B H) : Codec H → Prop
+  | accepted (buf : Bytes) (nl : Nat) (c' : Codec H) (a : Nat) :
+      stepState env { buffer := buf, state := .none } nl = .inr (c', a) → InMessage env c'
+  | continued (c : Codec H) (buf : Bytes) (nl : Nat) (c' : Codec H) (a : Nat) :
+      InMessage env c → stepState env { c with buffer := buf } nl = .inr (c', a) → InMessage env c'
+  | delivered (c : Codec H) (buf : Bytes) (nl : Nat) (m : Message B H) (c' : Codec H) (a : Nat) :
+      InMessage env c → stepState env { c with buffer := buf } nl = .inl (.msg m, c', a) →
+      c'.state ≠ .none → InMessage env c'
+  | attachment (c : Codec H) (size : Nat) (c' : Codec H) :
+      expectAttachment c size = some c' → InMessage env c'
+
+/-- **every state reachable after an accepted message header reads with `BODY_IO_TIMEOUT`**
+(`Header(..)`, the streamed `BlockHeaders { .. }`, `Attachment(..)`), and `HEADER_IO_TIMEOUT` is used
+in state `None` only.  The table is the one `tools/gen_codec_timeouts.py` extracts from
+`Codec::set_stream_timeout`. -/
+theorem body_states_use_body_timeout (env : Env B H) :
+    (∀ c : Codec H, InMessage env c → ioTimeout c.state = BODY_IO_TIMEOUT_MS) ∧
+    (∀ st : State H, st ≠ .none → ioTimeout st = BODY_IO_TIMEOUT_MS) ∧
+    (∀ st : State H, ioTimeout st = HEADER_IO_TIMEOUT_MS ↔ st = .none) := by
+  refine ⟨?_, ioTimeout_body, ?_⟩
+  · intro c h
+    induction h with
+    | accepted buf nl c' a h => exact ioTimeout_body _ (stepState_inr_state env _ nl c' a h)
+    | continued c buf nl c' a _ h _ => exact ioTimeout_body _ (stepState_inr_state env _ nl c' a h)
+    | delivered c buf nl m c' a _ _ hne _ => exact ioTimeout_body _ hne
+    | attachment c size c' h => exact ioTimeout_body _ (expectAttachment_state c c' size h)
+  · intro st
+    constructor
+    · intro h
+      cases st with
+      | none => rfl
+      | header _ => rw [ioTimeout_body _ (by simp)] at h; exact absurd h (by decide)
+      | blockHeaders _ _ _ => rw [ioTimeout_body _ (by simp)] at h; exact absurd h (by decide)
+      | attachment _ => rw [ioTimeout_body _ (by simp)] at h; exact absurd h (by decide)
+    · intro h; subst h; rfl
+
+/-- the table, state by state, with the durations of the source -/
+theorem timeout_table :
+    ioTimeout (State.none : State H) = 2000 ∧ (∀ h, ioTimeout (State.header h : State H) = 60000) ∧
+    (∀ bl il hs, ioTimeout (State.blockHeaders bl il hs : State H) = 60000) ∧
+    (∀ left, ioTimeout (State.attachment left : State H) = 60000) :=
+  ⟨rfl, fun _ => rfl, fun _ _ _ => rfl, fun _ => rfl⟩
+
+/-- every variant of the source's `enum State` (regenerated `StateKind`) is a state of the model: a
+variant added to `codec.rs` breaks this match -/
+theorem state_kinds_covered : ∀ k : GV.Gen.CodecTimeouts.StateKind, ∃ st : State Unit, st.kind = k
+  | .sNone => ⟨.none, rfl⟩
+  | .sHeader => ⟨.header (.known 0 0), rfl⟩
+  | .sBlockHeaders => ⟨.blockHeaders 0 0 [], rfl⟩
+  | .sAttachment => ⟨.attachment 0, rfl⟩
+
+/-- `InMessage` is inhabited by each kind of body state: after the frame header of a `Ping`, in the
+middle of a `Headers` list, and once the handler announced an attachment -/
+example : InMessage exEnv ({ buffer := [], state := .attachment 5 } : Codec Nat) :=
+  .attachment { buffer := [], state := .none } 5 _ rfl
+
+example : InMessage exEnv ({ buffer := [], state := .header (.known 3 2) } : Codec Nat) :=
+  .accepted (encHeader exEnv.net 3 2) 11 _ 0 (by decide)
+
+/-- the frame header of a `Headers` message of 2 items (2 + 2 body bytes), then its item count: the codec
+is in the streaming state `BlockHeaders { bytes_left: 2, items_left: 2, .. }` -/
+example : InMessage exEnv ({ buffer := [], state := .blockHeaders 2 2 [] } : Codec Nat) :=
+  .continued { buffer := [], state := .header (.known T_Headers 4) } [0, 2] 2 _ (min 32 2 * 400)
+    (.accepted (encHeader exEnv.net T_Headers 4) 11 _ 0 (by decide)) (by decide)
+
+/-- a wait is tolerated in a state iff it is shorter than that state's timeout: 2.5 s is tolerated
+anywhere after an accepted header and not while a header is awaited -/
+example : tolerated (State.blockHeaders 100 3 ([] : List Nat)) 2500 = true ∧
+    tolerated (State.attachment 7 : State Nat) 59999 = true ∧ tolerated (State.attachment 7 : State Nat) 60000 = false ∧
+    tolerated (State.none : State Nat) 2500 = false ∧ tolerated (State.none : State Nat) 1999 = true := by decide
+
+/-- **one `Codec::read` with tolerated waits** is the read on the flat stream: same result, byte and
+allocation counters, codec, and the same bytes consumed — from any state, for any bytes -/
+theorem read_with_tolerated_waits (env : Env B H) (c : Codec H) (ts : TStream)
+    (hb : WaitsBelow BODY_IO_TIMEOUT_MS ts)
+    (hh : c.state = .none → WaitsBelow HEADER_IO_TIMEOUT_MS (ts.take (MSG_HEADER_LEN - c.buffer.length))) :
+    ∃ j, (readT env c ts).res = (read env flatOps c (tbytes ts)).res ∧
+      (readT env c ts).bytesRead = (read env flatOps c (tbytes ts)).bytesRead ∧
+      (readT env c ts).alloc = (read env flatOps c (tbytes ts)).alloc ∧
+      (readT env c ts).codec = (read env flatOps c (tbytes ts)).codec ∧
+      (readT env c ts).sock = ts.drop j ∧ (read env flatOps c (tbytes ts)).sock = tbytes (ts.drop j) := by
+  obtain ⟨j, e1, e2⟩ := readT_flat env c ts hb hh
+  exact ⟨j, by rw [e1], by rw [e1], by rw [e1], by rw [e1], by rw [e1], e2⟩
+
+/-- **framing is faithful under fragmentation with pauses**: for every list of well-formed sent
+messages and every schedule of fragments and pauses whose pauses respect the read timeout of the
+state the codec is in while it waits (`DelaysOK`: shorter than `HEADER_IO_TIMEOUT` while one of the
+11 frame-header bytes is awaited, shorter than `BODY_IO_TIMEOUT` anywhere after an accepted header —
+body, item count, every streamed block header, every attachment chunk), the reader loop over the
+timed stream delivers exactly the expected sequence of typed messages and ends at the end of the
+stream, idle, with nothing buffered or unread; no read times out -/
+theorem fragmentation_with_delays_faithful (env : Env B H) (attach : Message B H → Option Nat)
+    (hat : AttachOK attach) (msgs : List (Sent B H)) (hwf : ∀ m ∈ msgs, SentWF env attach m)
+    (sched : Sched) (hfr : (sched.map (·.2)).flatten = (msgs.map (encodeSent env.net)).flatten)
+    (hd : DelaysOK env.net msgs (tagSched sched)) (extra : Nat) :
+    let r := runT env attach ((msgs.map expected).flatten.length + (extra + 1)) idle (tagSched sched)
+    r.1 = (msgs.map expected).flatten ∧ r.2.1 = .err .conn ∧ r.2.2.1 = idle ∧ r.2.2.2 = [] := by
+  intro r
+  have hts : tbytes (tagSched sched) = (msgs.map (encodeSent env.net)).flatten := by
+    rw [tbytes_tagSched, hfr]
+  have h := runT_all env attach hat msgs hwf (tagSched sched) hts hd (extra + 1)
+  have he := runT_idle_eof env attach extra
+  have hr : r = _ := h
+  rw [hr, he]
+  simp
+
+/-- in particular every schedule whose pauses are all shorter than `HEADER_IO_TIMEOUT` -/
+theorem fragmentation_small_delays_faithful (env : Env B H) (attach : Message B H → Option Nat)
+    (hat : AttachOK attach) (msgs : List (Sent B H)) (hwf : ∀ m ∈ msgs, SentWF env attach m)
+    (sched : Sched) (hfr : (sched.map (·.2)).flatten = (msgs.map (encodeSent env.net)).flatten)
+    (hsmall : ∀ p ∈ sched, p.1 < HEADER_IO_TIMEOUT_MS) (extra : Nat) :
+    let r := runT env attach ((msgs.map expected).flatten.length + (extra + 1)) idle (tagSched sched)
+    r.1 = (msgs.map expected).flatten ∧ r.2.1 = .err .conn ∧ r.2.2.1 = idle ∧ r.2.2.2 = [] := by
+  apply fragmentation_with_delays_faithful env attach hat msgs hwf sched hfr
+  apply delaysOK_of_small
+  · rw [tbytes_tagSched, hfr]
+  · exact waitsBelow_tagSched _ (by decide) sched hsmall
+
+/-- **a pause of any length while the codec is idle loses nothing**: `w / HEADER_IO_TIMEOUT` reads time
+out with nothing pulled (`try_break!` carries on), then the loop continues as if the wait had been
+`w % HEADER_IO_TIMEOUT` -/
+theorem idle_pause_absorbed (env : Env B H) (attach : Message B H → Option Nat) (w b : Nat) (s : TStream) (fuel : Nat) :
+    runT env attach (w / HEADER_IO_TIMEOUT_MS + fuel) (idle : Codec H) ((w, b) :: s) =
+      runT env attach fuel (idle : Codec H) ((w % HEADER_IO_TIMEOUT_MS, b) :: s) :=
+  runT_idle_wait' env attach w b s fuel
+
+/-- **… and with idle pauses of any length between messages** (`DelaysOKIdle`: as `DelaysOK`, but the
+wait for the first byte of a frame is unbounded): `idleRetries` reads time out with nothing pulled and
+are retried by the reader thread, everything is delivered exactly -/
+theorem fragmentation_with_idle_gaps_faithful (env : Env B H) (attach : Message B H → Option Nat)
+    (hat : AttachOK attach) (msgs : List (Sent B H)) (hwf : ∀ m ∈ msgs, SentWF env attach m)
+    (sched : Sched) (hfr : (sched.map (·.2)).flatten = (msgs.map (encodeSent env.net)).flatten)
+    (hd : DelaysOKIdle env.net msgs (tagSched sched)) (extra : Nat) :
+    let r := runT env attach (idleRetries env.net msgs (tagSched sched) +
+      ((msgs.map expected).flatten.length + (extra + 1))) idle (tagSched sched)
+    r.1 = (msgs.map expected).flatten ∧ r.2.1 = .err .conn ∧ r.2.2.1 = idle ∧ r.2.2.2 = [] := by
+  intro r
+  have hts : tbytes (tagSched sched) = (msgs.map (encodeSent env.net)).flatten := by
+    rw [tbytes_tagSched, hfr]
+  have h := runT_all_idle env attach hat msgs hwf (tagSched sched) hts hd (extra + 1)
+  have he := runT_idle_eof env attach extra
+  have hr : r = _ := h
+  rw [hr, he]
+  simp
+
+/-- satisfiable: a frame, 7.3 s of silence, a frame with a 2.5 s pause inside its body: three reads time
+out while idle -/
+example : DelaysOKIdle (B := Bytes) (H := Nat) exEnv.net [Sent.plain 3 [1, 2] [1, 2], Sent.unknown 200 [9, 9]]
+    (tagSched [(0, encHeader exEnv.net 3 2 ++ [1, 2]), (7300, encHeader exEnv.net 200 2 ++ [9]), (2500, [9])]) ∧
+    idleRetries (B := Bytes) (H := Nat) exEnv.net [Sent.plain 3 [1, 2] [1, 2], Sent.unknown 200 [9, 9]]
+    (tagSched [(0, encHeader exEnv.net 3 2 ++ [1, 2]), (7300, encHeader exEnv.net 200 2 ++ [9]), (2500, [9])]) = 3 := by
+  refine ⟨⟨?_, ?_, ?_, ?_, ?_⟩, ?_⟩
+  · decide
+  · decide
+  · decide
+  · decide
+  · show _ = []
+    rfl
+  · decide
+
+/-- the hypotheses of `fragmentation_with_delays_faithful` are satisfiable with a pause longer than
+the header timeout inside a body: a 13-byte `Ping`-like frame written as header + first body byte,
+a pause of 2.5 s, then the last body byte, then (after 1.9 s) an unknown frame in one piece -/
+example : DelaysOK (B := Bytes) (H := Nat) exEnv.net [Sent.plain 3 [1, 2] [1, 2], Sent.unknown 200 [9]]
+    (tagSched [(0, encHeader exEnv.net 3 2 ++ [1]), (2500, [2]), (1900, encHeader exEnv.net 200 1 ++ [9])]) := by
+  refine ⟨?_, ?_, ?_, ?_, ?_⟩
+  · decide
+  · decide
+  · decide
+  · decide
+  · show _ = []
+    rfl
+
+/-- … while a pause of 2 s or more in the *middle of a frame header* is outside the I/O timeouts:
+the 5 header bytes already pulled are dropped and the stream is desynchronised -/
+theorem header_pause_desyncs :
+    (runT exEnv (fun _ => none) 10 (idle : Codec Nat)
+      (tagSched [(0, (encHeader exEnv.net 3 2).take 5), (2000, (encHeader exEnv.net 3 2).drop 5 ++ [1, 2])])).1
+      ≠ [Message.body 3 [1, 2]] := by
+  decide
 
 /-! ## refusals at the frame header -/
 
@@ -294,6 +499,51 @@ theorem own_nonce_detected (ring : List Nat) (n : Nat) : n ∈ pushNonce ring n 
     | nil => simp [NONCES_CAP] at h
     | cons a t => simp
   · simp
+
+/-- **the ring holds exactly the last `min(n, NONCES_CAP − 1)` nonces** of the outbound attempts this
+`Handshake` object ever made (`next_nonce` pops when `len >= NONCES_CAP`: 99 are kept, not 100) -/
+theorem ring_holds_last (ns : List Nat) :
+    ringAfter ns = ns.drop (ns.length - (NONCES_CAP - 1)) ∧
+    (ringAfter ns).length = min ns.length (NONCES_CAP - 1) :=
+  ⟨ringAfter_eq ns, ringAfter_length ns⟩
+
+/-- **after any number of pushes the nonces of the last `min(n, NONCES_CAP − 1)` attempts are
+contained**, in particular the most recent one -/
+theorem recent_nonce_retained (older recent : List Nat) (h : recent.length ≤ NONCES_CAP - 1) :
+    (∀ n ∈ recent, n ∈ ringAfter (older ++ recent)) ∧ (∀ n, n ∈ ringAfter (older ++ [n])) :=
+  ⟨ringAfter_recent older recent h, fun n => ringAfter_recent older [n] (by have := NONCES_CAP_ge; simp only [List.length_cons, List.length_nil]; omega) n (by simp)⟩
+
+/-- **a connection to itself is refused over every history**: whatever outbound attempts (succeeded
+or failed) the `Handshake` object made before, and even with up to `NONCES_CAP − 2` further attempts
+started before the `Hand` comes back, a `Hand` carrying the nonce it has just drawn is answered
+`PeerWithSelf` -/
+theorem self_connect_refused (g : Bytes) (v : Nat) (denied : Bool) (history later : List Nat)
+    (hl : later.length ≤ NONCES_CAP - 2) (hand : Hand) (hg : hand.genesis = g) :
+    acceptDecision g v (ringAfter (history ++ [hand.nonce] ++ later)) denied hand = .error .peerWithSelf := by
+  apply accept_own_nonce g v _ denied hand hg
+  rw [List.append_assoc]
+  apply ringAfter_recent history ([hand.nonce] ++ later)
+  · have := NONCES_CAP_ge
+    simp only [List.length_append, List.length_cons, List.length_nil]
+    omega
+  · simp
+
+/-- what the code does with a nonce that is `NONCES_CAP − 1` or more attempts old: it is forgotten, a
+`Hand` replaying it is accepted (the property only speaks about a connection to itself made *now*) -/
+theorem evicted_nonce_not_detected (g : Bytes) (v : Nat) (history later : List Nat) (n : Nat)
+    (hl : later.length = NONCES_CAP - 1) (hn : n ∉ later) (hand : Hand) (hg : hand.genesis = g)
+    (hnonce : hand.nonce = n) :
+    acceptDecision g v (ringAfter (history ++ [n] ++ later)) false hand = .ok (min v hand.version) := by
+  apply accept_ok g v _ hand hg
+  rw [ringAfter_evicted _ later hl, hnonce]
+  exact hn
+
+set_option maxRecDepth 8000 in
+/-- a history of 250 attempts: the ring has 99 entries, the most recent nonce (249) and the one 98
+attempts back (151) are in it, the one 99 attempts back (150) is not -/
+example : (ringAfter (List.range 250)).length = 99 ∧ 249 ∈ ringAfter (List.range 250) ∧
+    151 ∈ ringAfter (List.range 250) ∧ 150 ∉ ringAfter (List.range 250) := by
+  rw [ringAfter_eq]; decide
 
 example : acceptDecision [1] 1000 (pushNonce [] 42) false
     { version := 3, capabilities := 0, nonce := 42, genesis := [1], totalDifficulty := 0,
